@@ -77,6 +77,23 @@ class PlainCV:
         self.y = 2
 
 
+class BareCV:
+    """class constants annotated with the bare, unsubscripted ClassVar form (legal Python), next to an instance field"""
+    kind: typing.ClassVar = "k"
+    y: int
+
+    def __init__(self):
+        self.y = 2
+
+
+class OnlyBareCV:
+    """every annotation is a bare ClassVar: the instance's own attributes are its fields"""
+    kind: typing.ClassVar = "k"
+
+    def __init__(self):
+        self.x = "x"
+
+
 class VarsCtor:
     """a vars-only class whose constructor parameter is not the attribute it sets"""
 
@@ -140,6 +157,8 @@ def cases():
     out.append(("slots-only hierarchy", lambda: SlotB(), [("a", 1), ("b", 2)], [1, 2]))
     out.append(("__slots__ given as one string", lambda: StrSlot(), [("value", 5)], [5]))
     out.append(("plain annotated class with a ClassVar", lambda: PlainCV(), [("y", 2)], [2]))
+    out.append(("plain annotated class with a bare ClassVar", lambda: BareCV(), [("y", 2)], [2]))
+    out.append(("class whose only annotations are bare ClassVars", lambda: OnlyBareCV(), [("x", "x")], ["x"]))
     out.append(("vars-only class, constructor parameter named differently", lambda: VarsCtor(), [("y", 1)], [1]))
     out.append(("dataclass private field", lambda: DC(1), [("a", 1), ("b", "x")], [1, "x"]))
     out.append(("slots-only", lambda: Slots(), [("p", 1)], [1]))
